@@ -28,7 +28,7 @@ from antlr4 import *
 from .aggregator import DocumentationAggregator
 from cminx import Settings
 from .documentation_types import DocumentationType, ModuleDocumentation
-from .parser import ParserErrorListener
+from .parser import ParserErrorListener, SyntaxErrorCollector, CMakeSyntaxError
 from .parser.CMakeLexer import CMakeLexer
 from .parser.CMakeParser import CMakeParser
 from .rstwriter import RSTWriter, Directive
@@ -93,6 +93,15 @@ class Documenter(object):
         added.
         """
 
+        self.syntax_errors: SyntaxErrorCollector = SyntaxErrorCollector()
+        """
+        Collects the syntax errors of the lexer, which otherwise only prints them and skips the
+        offending characters, and of the parser. Added before :class:`~cminx.parser.ParserErrorListener`
+        because that listener raises.
+        """
+
+        self.lexer.addErrorListener(self.syntax_errors)
+        self.parser.addErrorListener(self.syntax_errors)
         self.parser.addErrorListener(ParserErrorListener())
 
         # Hard part is done, we now have a fully usable parse tree, now we just
@@ -112,7 +121,15 @@ class Documenter(object):
 
         # Parse and lex the file, then walk the tree and aggregate the
         # documented commands
-        self.walker.walk(self.aggregator, self.parser.cmake_file())
+        tree = self.parser.cmake_file()
+
+        # The lexer and the parser recover from errors by skipping input, never document a partial view of the file
+        if len(self.syntax_errors.errors) > 0:
+            error = CMakeSyntaxError()
+            error.msg = "; ".join(self.syntax_errors.errors)
+            raise error
+
+        self.walker.walk(self.aggregator, tree)
 
         # All the documented commands are now stored in aggregator.documented,
         # each element is a namedtuple representing the type of documentation it is.
